@@ -552,9 +552,10 @@ def probe(exe, seed, ncases, keep=None, quiet=False, oracle=False, deep=0, setop
         print(f"  histories with new_var(lin) on a basic variable: {n_nb} ({100*n_nb/n:.1f}%), with a known term: {n_nk} ({100*n_nk/n:.1f}%), "
               f"with set_lb/set_ub/set on a variable returned by such a request: {n_st} ({100*n_st/n:.1f}%)")
     if oracle or deep:
-        if deep:
+        if deep and not quiet:
             print(f"  deep oracle (recorded clauses are consequences modulo LRA; root-level false only on unsatisfiable problems): {n_deep[0]} cases checked")
-        print(f"  oracle (values within bounds, rows and slack definitions hold, bounds as tight as the assigned assertions): {len(obad)} violating cases")
+        if not quiet:
+            print(f"  oracle (values within bounds, rows and slack definitions hold, bounds as tight as the assigned assertions): {len(obad)} violating cases")
         stats["oracle_violations"] = len(obad)
         if obad:
             ci, j, w = min(obad, key=lambda d: len(cases[d[0]][0]))
